@@ -17,8 +17,8 @@ EXPLANATION = (
     "stores the text equals the key flatFormat looks up (both through KeyFlattener.flatKey), and the stored text is what str.format would "
     "render for that code (str / repr / ascii) - evaluated by the checker's own interpreter on a probe whose str, repr and ascii differ. "
     "Structural (normalised view, private helpers inlined): the parsed format spec flows into a format() call on one side (data flow); the "
-    "flattened key is computed from the field name before '()' is stripped and '()' fields are called before they are converted (CFG "
-    "ordering); _formatEvent selects flatFormat exactly under 'log_flattened' in event and the live formatter exactly otherwise (guard "
+    "flattened key is computed from the field name before '()' is stripped, '()' fields are called before they are converted and a field "
+    "whose flattened key is already stored is not resolved again (CFG ordering / guard dominance); _formatEvent selects flatFormat exactly under 'log_flattened' in event and the live formatter exactly otherwise (guard "
     "polarity); eventAsJSON flattens the event it serialises before dumps (must-precede); dumps / loads get only keyword arguments that make "
     "them more total; '__class_uuid__' marker and classInfo rows agree between saver and loader; the JSON fallback encoder (default hook, "
     "objectSaveHook, every classInfo predicate and saver, resolved through the table) performs no may-raise operation on an arbitrary "
@@ -314,15 +314,19 @@ def _concrete(ctx):
         def stage3():
             e3 = dict(_values(), log_format=fmt)
             return text_of(G["eventFromJSON"](G["eventAsJSON"](e3)))
+        def stage4():
+            e3 = dict(_values(), log_format=fmt)
+            once = G["eventFromJSON"](G["eventAsJSON"](e3))
+            return text_of(G["eventFromJSON"](G["eventAsJSON"](once)))   # a loaded event is serialised again (relayed log)
         bad = None
         for label, fn in (("the original event (live formatter)", stage0), ("after flattenEvent", stage1), ("after flattening twice", stage2),
-                          ("after eventAsJSON/eventFromJSON", stage3)):
+                          ("after eventAsJSON/eventFromJSON", stage3), ("after a second JSON hop of the loaded event", stage4)):
             got = guarded(fn)
             if got != want and bad is None:
                 bad = (label, got)
         ctx.check(bad is None, "roundtrip/concrete-family", f"{QF}flattenEvent|flatFormat | {fmt!r}",
                   (f"{bad[0]} formats as {bad[1]!r}; str.format with call syntax gives {want!r} - original, flattened and JSON-loaded text must coincide" if bad else ""),
-                  detail=f"all four stages give {want!r}")
+                  detail=f"all five stages give {want!r}")
     ctx.floor("roundtrip/concrete-family", len(FAMILY), 20, "format strings")
 
 
@@ -542,6 +546,27 @@ def _flatten_structure(ctx):
                   witness=g.describe(bad))
     else:
         _abstain(ctx, "key/uses-unstripped-field-name", "first argument of flatKey")
+    # a field whose flattened key is already present is not resolved again (a loaded event has lost its objects)
+    keyvars = {t.id for st in ast.walk(lp) if isinstance(st, ast.Assign) and isinstance(st.value, ast.Call) and st.value in keycalls
+               for t in st.targets if isinstance(t, ast.Name)}
+    lookups = [c for c in ast.walk(lp) if isinstance(c, ast.Call) and isinstance(c.func, ast.Attribute) and c.func.attr == "get_field"]
+    if keyvars and lookups:
+        def seen_polarity(n):
+            out = set()
+            for t, lab in g.edge_guards(n):
+                te = g.node(t).ast
+                if isinstance(te, ast.Compare) and len(te.ops) == 1 and isinstance(te.left, ast.Name) and te.left.id in keyvars and isinstance(te.ops[0], (ast.In, ast.NotIn)):
+                    out.add((isinstance(te.ops[0], ast.In)) == (lab == "T"))
+            return out
+        for c in lookups:
+            pol = set()
+            for n in g.ids_of(c):
+                pol |= seen_polarity(n)
+            ctx.check(pol == {False}, "writer/resolves-only-unseen-fields", QF + "flattenEvent | get_field(...)",
+                      "a field is looked up in the event although its flattened text is already stored: flattening a loaded event (whose objects are gone) again "
+                      "raises instead of keeping the stored text", detail="dominated by `flattened key not in fields`")
+    else:
+        _abstain(ctx, "writer/resolves-only-unseen-fields", "flatKey result variable / get_field call")
     convs = {"str", "repr", "ascii"}
     aliases = set()
     for st in ast.walk(lp):
@@ -673,6 +698,10 @@ MUTANTS = [
     Mutant("reader-extends-with-field-first", FLAT, _READER_OLD,
            "        if fieldName is None:\n            s.append(literalText)\n        else:\n            s += (str(fieldValues[keyFlattener.flatKey(fieldName, formatSpec, conversion or \"s\")]), literalText)\n",
            expect_rule="roundtrip/concrete-family"),
+    Mutant("seen-fields-resolved-again", FLAT, "        if flattenedKey in fields:\n            # We've already seen and handled this key\n            continue\n\n", "",
+           more=[(FLAT, "        fields[flattenedKey] = flattenedValue\n        fields[structuredKey] = fieldValue\n",
+                  "        if flattenedKey not in fields:\n            fields[flattenedKey] = flattenedValue\n            fields[structuredKey] = fieldValue\n")],
+           expect_rule="writer/resolves-only-unseen-fields"),
     Mutant("json-without-flatten", JSON, "    flattenEvent(event)\n    return dumps(", "    return dumps(", expect_rule="json/flatten-before-dumps"),
     Mutant("reader-joins-with-space", FLAT, "    return \"\".join(s)", "    return \" \".join(s)", expect_rule="roundtrip/concrete-family"),
     Mutant("reader-field-before-literal", FLAT, "        s.append(literalText)\n\n        if fieldName is not None:\n            key = keyFlattener.flatKey(fieldName, formatSpec, conversion or \"s\")\n            s.append(str(fieldValues[key]))\n",
@@ -711,5 +740,7 @@ SILENT = [
     Silent("fallback-encoder-as-jsonencoder-subclass", JSON, _ENC_CALL[1], _ENC_CALL[2], more=[_ENC_IMPORT, _enc_class("charmap")]),
     Silent("reader-extends-list-with-a-tuple", FLAT, _READER_OLD,
            "        if fieldName is None:\n            s.append(literalText)\n        else:\n            s += (literalText, str(fieldValues[keyFlattener.flatKey(fieldName, formatSpec, conversion or \"s\")]))\n"),
+    Silent("seen-check-as-positive-condition", FLAT, "        if flattenedKey in fields:\n            # We've already seen and handled this key\n            continue\n\n        if fieldName.endswith(\"()\"):\n            fieldName = fieldName[:-2]\n            callit = True\n        else:\n            callit = False\n\n        field = aFormatter.get_field(fieldName, (), event)\n        fieldValue = field[0]\n\n" + _CONV_FIXED + "\n        if callit:\n            fieldValue = fieldValue()\n\n        flattenedValue = conversionFunction(fieldValue)\n        fields[flattenedKey] = flattenedValue\n        fields[structuredKey] = fieldValue\n",
+           "        if flattenedKey not in fields:\n            callit = fieldName.endswith(\"()\")\n            fieldValue = aFormatter.get_field(fieldName[:-2] if callit else fieldName, (), event)[0]\n            if callit:\n                fieldValue = fieldValue()\n            fields[flattenedKey] = {\"r\": repr, \"a\": ascii}.get(conversion, str)(fieldValue)\n            fields[structuredKey] = fieldValue\n"),
     Silent("json-local-for-text", JSON, "    flattenEvent(event)\n    return dumps(event, default=default, skipkeys=True)", "    flattenEvent(event)\n    text = dumps(event, default=default, skipkeys=True)\n    return text"),
 ]
